@@ -47,7 +47,7 @@ func TestGrpcDuplex(t *testing.T) {
 	defer w.close()
 	cls := []string{"success", "ignore", "dropped"}
 	k := 0
-	for _, cfg := range []grpcCfg{{false, false}, {true, false}, {false, true}, {true, true}} {
+	for _, cfg := range []grpcCfg{{false, false, 0}, {true, false, 1}, {false, true, 2}, {true, true, 2}} {
 		for _, pattern := range []string{"recv-around-send", "send-around-recv", "both-recv-leaves-first", "both-send-leaves-first"} {
 			for mask := 0; mask < 16; mask++ {
 				for ci := 0; ci < 9; ci++ {
